@@ -299,7 +299,8 @@ pub fn handle_xread(storage: &Arc<StorageEngine>, db: usize, parts: &[RespFrame]
                     match &parts[i + 1] {
                         RespFrame::BulkString(Some(bytes)) => {
                             match String::from_utf8_lossy(bytes).parse::<usize>() {
-                                Ok(n) => count = Some(n),
+                                // COUNT 0 means no limit, as for XREADGROUP
+                                Ok(n) => count = if n > 0 { Some(n) } else { None },
                                 Err(_) => return Ok(RespFrame::error("ERR value is not an integer or out of range")),
                             }
                         }
